@@ -51,6 +51,18 @@ CHECKS = {
  "C16": ("exploration", "site-model generated listings with model-derived expectations, hostile/oversize/truncated/mutated texts and strace-injected read errors, parsed in child processes", "vc c16-worker + strace inject", "DESIGN.md 3/C16",
          "Listings are generated from a site model (functions x site kinds incl. decoy loads, traps inside wrapper functions, traps whose load lies in the previous function, numbers outside the table) for x86_64 and i386, so the expected (number, caller) multiset is known without reading the text; function-boundary prefixes give monotonicity pairs; hostile lines, lines of 65535..1000000 bytes, a directory, truncation at every byte/line and PRNG byte mutations must neither panic nor hang; unreadable texts and reads failing with EIO at every read (strace inject) must yield an error, not a partial result. Batches run in child processes with the input on disk first.",
          "Texts are sampled; names are compared with the kernel UAPI tables vendored under oracles/."),
+ "C15": ("fault_enumeration", "black-box runs of the built cmd/sandbox with a marker-leaving probing target; invalid files, real and strace-injected kernel refusals; probe outcomes in the exec'ed target vs reference semantics", "sandbox binary + vchild probe + strace inject", "DESIGN.md 3/C15",
+         "The built sandbox command is run with every invalid-file kind, a real oversize policy and strace-injected failures of seccomp(2)/prctl(2) (errno classes and the positive thread-id return): it must exit non-zero and the target's marker file must not appear; with valid PRNG policies rendered to YAML (argv and -no-new-privs variants) the exec'ed target must start filtered and observe, probe by probe, the decisions the reference semantics gives.",
+         "Valid policies only decide about probe syscalls so the command's own fork/exec keeps working; lethal actions are not used for targets; amd64 host."),
+ "C17": ("fault_enumeration", "two/three-run process histories with real SIGKILLs at swept write offsets, tool failures, ENOSPC/EIO injection; next run's profile vs cold-cache profile", "E8 tool runner (unshare -m, fake go, strace inject)", "DESIGN.md 3/C17",
+         "The built seccomp-profiler runs in private mount namespaces with a scripted disassembler: run 1 is SIGKILLed after the disassembler emitted k bytes (k swept over 0, 1, 63..65, every 4096-byte flush boundary +-1, end, PRNG), or the disassembler is absent / exits 1 / is killed after k bytes or after everything, or writes fail with ENOSPC from the K-th on, or hashing hits EIO, or the binary is replaced; the following normal run must print the cold-cache profile or fail. Cache lengths actually left behind by the kills are recorded.",
+         "Only states the implementation can really leave behind are judged (real kills, no synthetic prefixes); power-loss reordering is not modelled."),
+ "C18": ("exploration", "black-box profiler runs on model listings with chosen discovered multisets; emitted list vs set formula; YAML through the config path to a complete nr decision table; sandbox as consumer", "E8 + E1/E2 + sandbox", "DESIGN.md 3/C18",
+         "The built profiler is run on amd64 and 386 Go ELF inputs with listings whose sites are a chosen multiset and PRNG disjoint -b/-allow sets (three separators, repeated flags, unknown and other-architecture names), formats config/code, -d, -out; the emitted list must equal sort(dedup(found) - B + (A in table)); the YAML is loaded through the configuration path, compiled, and its complete nr decision table must be 'allow exactly those, errno otherwise'; the real sandbox consumes emitted profiles with a probing target; thorough: generated Go code is compiled and run.",
+         "Discovery itself is C16's subject; here the discovered multiset is fixed by the generated listing."),
+ "C19": ("exploration", "probe program executed on linux/amd64, linux/386 and js/wasm (node, under strace); go list file selection for all dist targets", "vconst + node + strace", "DESIGN.md 3/C19",
+         "A probe program built with -tags verif is executed on the three runnable targets: 16 constants are compared with the kernel UAPI values, policies compiled for each syscall table must give identical programs on all targets, the non-Linux stubs must report unsupported, compile with an unsupported-architecture error and issue no seccomp/prctl system call (strace of the node process). For the other ~46 targets only the selection of constant/stub files is recorded and must be one that was executed; thorough adds compiler-evaluated constant equalities for 12 built-only targets (static, reported separately).",
+         "Reduced level: 3 of 49 targets executed; linux/* values other than amd64/386 come from x/sys/unix files that are never executed here."),
 }
 
 def main():
@@ -86,7 +98,7 @@ def main():
             {"name": "vc", "path": "harness/cmd/vc", "serves_properties": props, "kind_free_text": "one sub-command per property; runs the real code of /repo (built with -tags verif) and the monitors"},
         ],
         "checks": checks,
-        "not_applicable": [{"property_id": p, "reason": "check not built yet (build round in progress); see DESIGN.md section 3"} for p in props if p not in CHECKS],
+        "not_applicable": [{"property_id": p, "reason": "check not built yet; see DESIGN.md section 3"} for p in props if p not in CHECKS],
         "notes": "Runtime monitoring: every verdict comes from observing executions of the real code built from /repo. Exit 0 held, 1 violation, 3 inconclusive. Repaired defects are listed in KNOWN_FINDINGS.txt ('fixed:' lines suppress nothing).",
     }
     json.dump(m, open("MANIFEST.json", "w"), indent=1)
